@@ -1,6 +1,7 @@
 // appended to crates/air-lib/interpreter-data/src/interpreter_data/verification.rs
 // native job C01.collect_cids (finite: the four reference kinds x {present, dangling}): DataVerifier::new is total on data
-// whose TRACE refers to CIDs missing from the stores -- CidInfo::verify() does not cover trace -> store references (F5)
+// whose TRACE refers to CIDs missing from the stores -- CidInfo::verify() does not cover trace -> store references (F5) -- and
+// reports exactly the first missing CID (C03 / C14: a dangling reference is never skipped)
 #[cfg(test)]
 mod verif_native_collect_cids {
     use super::*;
@@ -40,6 +41,53 @@ mod verif_native_collect_cids {
             if outcome.is_err() {
                 println!("VERIF-JOB C01.collect_cids FAIL DataVerifier::new panics on a trace reference missing from the CID stores");
                 panic!("DataVerifier::new panicked (mask {mask:#06b})");
+            }
+            cases += 1;
+            // C03 / C14: a CID the trace refers to that is missing from the stores is an ERROR naming that CID -- it is never skipped
+            // (a skipped state would be attributed to no peer and covered by no signature). Same data, now with the owner's key
+            // in the signature store, so that every lookup is reached.
+            let key = air_interpreter_signatures::KeyPair::from_secret_key(vec![7u8; 32], air_interpreter_signatures::KeyFormat::Ed25519).unwrap();
+            let owner = key.public().to_peer_id().unwrap();
+            let mut tetraplets = CidTracker::<SecurityTetraplet>::new();
+            let mut services = CidTracker::<ServiceResultCidAggregate>::new();
+            let mut canons = CidTracker::<CanonResultCidAggregate>::new();
+            let tetraplet = SecurityTetraplet::new(owner.clone(), "srv", "fn", "");
+            let canon_tetraplet = SecurityTetraplet::new(owner.clone(), "", "", "");
+            let tet_cid = if has(1) { tetraplets.track_value(tetraplet.clone()).unwrap() } else { CID::new("dangling-tetraplet") };
+            let canon_tet_cid = if has(3) { tetraplets.track_value(canon_tetraplet.clone()).unwrap() } else { CID::new("dangling-tetraplet-2") };
+            let service = ServiceResultCidAggregate { value_cid: CID::new("v"), argument_hash: "h".into(), tetraplet_cid: tet_cid.clone() };
+            let service_cid = if has(0) { services.track_value(service).unwrap() } else { CID::new("dangling-service-result") };
+            let canon = CanonResultCidAggregate { tetraplet: canon_tet_cid.clone(), values: vec![] };
+            let canon_cid = if has(2) { canons.track_value(canon).unwrap() } else { CID::new("dangling-canon-result") };
+            let trace = ExecutionTrace::from(vec![
+                ExecutedState::Call(CallResult::Executed(ValueRef::Scalar(service_cid.clone()))),
+                ExecutedState::Call(CallResult::Failed(service_cid.clone())),
+                ExecutedState::Canon(CanonResult::Executed(canon_cid.clone())),
+            ]);
+            let cid_info = CidInfo {
+                tetraplet_store: tetraplets.into(),
+                service_result_store: services.into(),
+                canon_result_store: canons.into(),
+                ..<_>::default()
+            };
+            let mut signatures = air_interpreter_signatures::SignatureStore::new();
+            signatures.put(key.public(), key.sign(b"anything").unwrap());
+            let data = InterpreterData { trace, last_call_request_id: 0, cid_info, signatures };
+            let expected: Option<Rc<CidRef>> = if !has(0) { Some(service_cid.get_inner()) }
+                else if !has(1) { Some(tet_cid.get_inner()) }
+                else if !has(2) { Some(canon_cid.get_inner()) }
+                else if !has(3) { Some(canon_tet_cid.get_inner()) }
+                else { None };
+            let got = DataVerifier::new(&data, "salt").map(|_| ());
+            let ok = match (&expected, &got) {
+                (None, Ok(())) => true,
+                (Some(c), Err(DataVerifierError::CidNotFound(e))) => c == e,
+                _ => false,
+            };
+            if !ok {
+                println!("VERIF-JOB C01.collect_cids FAIL links present (service result, its tetraplet, canon result, its tetraplet) = {:?}: expected {} got {:?}",
+                    [has(0), has(1), has(2), has(3)], match &expected { Some(c) => format!("CidNotFound({c})"), None => "Ok".to_string() }, got.as_ref().map_err(|e| e.to_string()));
+                panic!("DataVerifier::new: a dangling trace reference must be reported, never skipped (mask {mask:#06b})");
             }
             cases += 1;
         }
